@@ -385,10 +385,14 @@ class CRDTStore(Entity):
                 local_crdt.merge(remote_crdt)
                 self._keys_merged += 1
             else:
-                # Create from remote state
+                # Adopt the remote state under this node's own identity: merge it
+                # into a fresh local replica.  Keeping the sender's replica (and its
+                # node_id) would make later local updates land in the sender's slot.
                 remote_crdt = self._reconstruct_crdt(remote_dict)
                 if remote_crdt is not None:
-                    self._crdts[key] = remote_crdt
+                    local_crdt = remote_crdt.__class__(self.name)
+                    local_crdt.merge(remote_crdt)
+                    self._crdts[key] = local_crdt
                     self._keys_merged += 1
 
     def _reconstruct_crdt(self, data: dict) -> CRDT | None:
